@@ -88,6 +88,7 @@ struct Model {
   unsigned lookups_deep = 0;
 };
 
+extern "C" int __lsan_do_recoverable_leak_check(void) __attribute__((weak));
 static int h_init(void *, const void *) { return 0; }
 static void h_fini(void *) {}
 static std::deque<type_traits> &harness_traits() { static std::deque<type_traits> d; return d; }
@@ -105,6 +106,8 @@ struct Reg {
   Ctx &c;
   Model m;
   unsigned counter = 0;
+  long inject_base = -1;  // >= 0 while an injected step runs: vp::alloc_failures() at its start
+  bool injected_failure() const { return inject_base >= 0 && alloc_failures() > inject_base; }
   explicit Reg(Ctx &ctx) : c(ctx) {}
 
   // ---- name model
@@ -189,6 +192,7 @@ struct Reg {
       refused(KBasic, "range exhausted");
       return false;
     }
+    if (id <= 0 && injected_failure()) { c.logf("   -> %d (allocation failed)", id); c.label("inject:refused"); return false; }
     VP_CHECK(c, id > 0, "registration-refused", "mpt_type_basic_add(%zu) returned %d with %zu of %zu ids in use", size, id, m.e[KBasic].size(), capacity(KBasic));
     const type_traits *tt = mpt_type_traits(id);
     VP_CHECK(c, tt, "entry-unstable", "new basic id 0x%x has no traits", id);
@@ -207,6 +211,7 @@ struct Reg {
       return false;
     }
     if (!size && id < 0) { refused(KGeneric, "size 0"); c.label("refused:size0"); return false; }
+    if (id <= 0 && injected_failure()) { c.logf("   -> %d (allocation failed)", id); c.label("inject:refused"); return false; }
     VP_CHECK(c, id > 0, "registration-refused", "mpt_type_add(size %zu) returned %d with %zu of %zu ids in use", size, id, m.e[KGeneric].size(), capacity(KGeneric));
     after_success(KGeneric, Entry{(uintptr_t)id, false, "", 0, tt, size, tt->init, tt->fini});
     c.logf("   -> 0x%x", id);
@@ -235,6 +240,7 @@ struct Reg {
       refused(k, "range exhausted");
       return false;
     }
+    if (!nt && injected_failure()) { c.logf("   -> NULL (allocation failed)"); c.label("inject:refused"); return false; }
     VP_CHECK(c, nt, "registration-refused", "%s(%s) refused with %zu of %zu ids in use", fn, is_null ? "NULL" : name.c_str(), m.e[k].size(), capacity(k));
     const type_traits *tt = &nt->traits;
     VP_CHECK(c, tt, "entry-description", "%s: descriptor without traits", fn);
@@ -341,6 +347,63 @@ struct Reg {
     distinct(all, when);
   }
   // behavioural side of the same statement: an array typed with id A refuses content declared with another id B
+  // One library call with the k-th library allocation from now on failing (k = 1..3). The call must report failure
+  // (NULL / error) or succeed completely, and must not crash; afterwards (failure disarmed) everything registered and
+  // every built-in id resolves as before and the same call behaves as the model says.
+  void injected_step(const char *when) {
+    long k = (long)c.range(1, 3);
+    size_t what = c.pick(12);
+    inject_base = alloc_failures();
+    alloc_fail_after(k);
+    struct Disarm { Reg *r; ~Disarm() { alloc_fail_after(0); r->inject_base = -1; } } disarm{this};
+    c.logf("-- injected step %s: allocation %ld of the next call fails", when, k);
+    uintptr_t id = 0;
+    std::string name;
+    bool added = false;
+    switch (what) {
+      case 0: case 1: case 2: case 3: case 4: case 5: {  // lookup by id: a built-in table or the registry may have to be built now
+        static const uintptr_t first[] = {TypeValue, 'd', 'D', TypeLoggerPtr, TypeMetaPtr, _TypeValueAdd};
+        id = c.flip() ? first[what] : draw_id();
+        const type_traits *tt = mpt_type_traits(id);
+        c.logf("mpt_type_traits(0x%zx) -> %p%s", (size_t)id, (const void *)tt, injected_failure() ? " (allocation failed)" : "");
+        if (tt || !injected_failure()) expect_id(id, tt, "injected lookup");
+        c.label("inject:lookup-id");
+      } break;
+      case 6: {
+        name = lookup_name_draw();
+        HeapStr hs(name, true);
+        const named_traits *nt = mpt_named_traits(hs.p, -1);
+        uintptr_t want = 0; const named_traits *wnt = 0;
+        bool found = model_lookup(name, true, want, wnt);
+        c.logf("mpt_named_traits(\"%s\", -1) -> %s%s", name.c_str(), nt ? "found" : "NULL", injected_failure() ? " (allocation failed)" : "");
+        if (nt || !injected_failure()) check_named(nt, found, want, wnt, "mpt_named_traits(injected)", name);
+        c.label("inject:lookup-name");
+      } break;
+      case 7: {
+        name = lookup_name_draw();
+        HeapStr hs(name + " : x", true);
+        int r = mpt_alias_typeid(hs.p, 0);
+        uintptr_t want = 0; const named_traits *wnt = 0;
+        bool found = model_lookup(name, false, want, wnt);
+        c.logf("mpt_alias_typeid(\"%s : x\") -> %d%s", name.c_str(), r, injected_failure() ? " (allocation failed)" : "");
+        if (r >= 0 || !injected_failure()) VP_CHECK(c, found ? (r > 0 && (uintptr_t)r == want) : r < 0, "alias-lookup", "mpt_alias_typeid(\"%s : x\") returns %d under allocation pressure, model: %s 0x%zx", name.c_str(), r, found ? "id" : "unknown", (size_t)want);
+        c.label("inject:alias");
+      } break;
+      case 8: added = add_basic(c.near({0, 8, 256}, 1000)); c.label("inject:basic_add"); break;
+      case 9: added = add_generic(c.near({1, 8, 24}, 1000), (int)c.pick(4)); c.label("inject:type_add"); break;
+      default: { bool nul; name = draw_name(nul); added = add_named(what == 10 ? KIface : KMeta, nul, name); c.label(what == 10 ? "inject:interface_add" : "inject:metatype_add"); }
+    }
+    bool failed = injected_failure();
+    alloc_fail_after(0);
+    inject_base = -1;
+    if (failed) c.label("inject:allocation-failed");
+    (void)added;
+    // the world after the step
+    verify_all("after injected step", false);
+    builtin_check("after injected step");
+    if (what <= 5) lookup_id(id);
+    if (failed && c.flip()) full_scan("after injected failure");
+  }
   uintptr_t draw_typed_id() {
     size_t pool = c.weighted({4, 3, 3, 2, 1, 1});
     switch (pool) {
@@ -498,7 +561,8 @@ static void history(Ctx &c, Reg &r) {
   while (c.more()) {
     bool added = false, refused = false;
     size_t opbyte = c.range(0, 255), op = 0;
-    if (opbyte >= 0xf0) op = 9;  // new in round 7; below 0xf0 the byte decodes exactly as weighted({4,4,6,6,7,8,3,1,2}) did
+    if (opbyte >= 0xe0 && opbyte < 0xf0) op = 10;  // injected allocation failure (last round)
+    else if (opbyte >= 0xf0) op = 9;  // new in round 7; below 0xf0 the byte decodes exactly as weighted({4,4,6,6,7,8,3,1,2}) did
     else { static const unsigned w[] = {4, 4, 6, 6, 7, 8, 3, 1, 2}; unsigned r = opbyte % 41; while (r >= w[op]) r -= w[op++]; }
     switch (op) {
       case 0: added = r.add_basic(c.near({0, 1, 8, 255, 256, 65535, 65536}, 100000)); refused = !added; break;
@@ -517,6 +581,7 @@ static void history(Ctx &c, Reg &r) {
       } break;
       case 7: r.full_scan("in history"); break;
       case 9: { uintptr_t a = r.draw_typed_id(), b = r.draw_typed_id(); r.probe_pair(a, b); } break;
+      case 10: r.injected_step("in history"); break;
       default: {  // small ranges run dry
         int k = c.flip() ? KBasic : KIface;
         r.exhaust(k, c.flip(), c.range(1, 3));
@@ -555,6 +620,7 @@ static void run(Ctx &c) {
     c.nontrivial();
     return;
   }
+  if (sel >= 0xe8 && sel < 0xf8) { r.injected_step("as first library call of the process"); c.label("inject:first-call"); }
   if (sel >= 0xf8) {  // one big range to exhaustion and beyond, with lookups behind it
     int k = c.flip() ? KGeneric : KMeta;
     bool names = c.flip();
@@ -566,6 +632,10 @@ static void run(Ctx &c) {
   history(c, r);
   for (int k = 0; k < NKind; k++) if (r.m.e[k].size() > 30) c.label(k == KBasic ? ">30:basic" : k == KGeneric ? ">30:generic" : k == KIface ? ">30:interface" : ">30:metatype");
   if (r.m.lookups_deep) { c.nontrivial(); c.label("deep-lookup"); }
+  if (alloc_failures() > 0) {
+    c.nontrivial();
+    if (__lsan_do_recoverable_leak_check && __lsan_do_recoverable_leak_check()) c.fail("leak-after-failed-allocation", "LeakSanitizer reports unreachable memory after a registry call whose allocation failed");
+  }
 }
 
 static uint64_t enum_count(int) { return 6; }
